@@ -74,7 +74,11 @@ func (s *seqRun[T, L]) logf(format string, a ...interface{}) {
 }
 
 func (s *seqRun[T, L]) fail(method, kindStr, msg string) {
-	key := s.k.name + "." + method + ":" + kindStr
+	s.c.Fail(s.k.name+"."+method+":"+kindStr, msg, s.detail())
+}
+
+// detail: the program so far and every list of the pool (model and actual contents).
+func (s *seqRun[T, L]) detail() map[string]interface{} {
 	pool := make([]map[string]interface{}, 0, len(s.pool))
 	for _, p := range s.pool {
 		var actual []string
@@ -88,7 +92,7 @@ func (s *seqRun[T, L]) fail(method, kindStr, msg string) {
 	if s.t != nil {
 		target = fmt.Sprintf("L%d", s.t.id)
 	}
-	s.c.Fail(key, msg, map[string]interface{}{"list": s.k.name, "ops": s.ops, "target": target, "pool": pool})
+	return map[string]interface{}{"list": s.k.name, "ops": s.ops, "target": target, "pool": pool}
 }
 
 // construct builds an empty list with one of the constructors.
@@ -506,8 +510,10 @@ func (s *seqRun[T, L]) probeOOR() {
 		s.fail(method, kindStr, fmt.Sprintf("%s(%d) on a list of size %d (backing length %d) did not report the index; it returned %s", method, idx, size, tl, ret))
 		return
 	}
-	// a rejected call must leave this list and all others as they were
-	s.verifyAll(method, "")
+	// a rejected call must leave this list and all others as they were, and usable
+	if s.verifyAll(method, "") {
+		s.usable(method, s.t)
+	}
 }
 
 // wire: the target is written, the bytes must be the reference encoding, and the list read
@@ -715,6 +721,14 @@ func (s *seqRun[T, L]) step(bigBulk bool) {
 				arr[j] = k.draw(r)
 			}
 		}
+		// the caller's array: as it is, or a window of a larger array (spare capacity behind it)
+		var la *lentArr[T]
+		if pre, post, lent := lendShape(r); lent && arr != nil {
+			la = lendArr(arr, pre, post, func(int) T { return k.draw(r) })
+			arr = la.arg()
+			what += fmt.Sprintf("array[%d:%d] of %d elements=", la.lo, la.hi, len(la.arr))
+			c.Count("addallarray_lent_window", 1)
+		}
 		s.logf("L%d.AddAllArray(%s%v)", t.id, what, showAll(k.show, arr))
 		cp := append([]T(nil), arr...)
 		if s.mutate("AddAllArray", func() { t.l.AddAllArray(arr) }) {
@@ -725,7 +739,15 @@ func (s *seqRun[T, L]) step(bigBulk bool) {
 					break
 				}
 			}
-			s.holdVals("AddAllArray", fmt.Sprintf("the array that was passed to L%d.AddAllArray", t.id), arr)
+			if la != nil {
+				if msg := la.changed(k.eq, k.show); msg != "" {
+					s.fail("AddAllArray", "writes-callers-slice", "AddAllArray wrote to the caller's array: "+msg)
+				}
+				// the whole array stays under observation
+				s.holdVals("AddAllArray", fmt.Sprintf("the array a window of which was passed to L%d.AddAllArray", t.id), la.arr)
+			} else {
+				s.holdVals("AddAllArray", fmt.Sprintf("the array that was passed to L%d.AddAllArray", t.id), arr)
+			}
 		}
 	case op < 46: // AddAll: another pool list, the target itself, or a new list (which joins the pool)
 		var src *plist[T, L]
@@ -854,8 +876,10 @@ func (s *seqRun[T, L]) step(bigBulk bool) {
 			s.fail(method, "wrong-value", msg)
 		}
 		c.Count("accessor_checks", 1)
-	case op < 83: // out-of-range probe
+	case op < 79: // out-of-range probe
 		s.probeOOR()
+	case op < 83: // the other error reports: bad index list, short / nil child, text that does not parse, nil source
+		s.probeErr()
 	case op < 87: // ToArray is a copy; the array stays under observation
 		s.logf("L%d.ToArray + scribble", t.id)
 		if !s.verify("ToArray") {
@@ -911,12 +935,26 @@ func (s *seqRun[T, L]) step(bigBulk bool) {
 				idx = []int{}
 			}
 		}
+		// the index list: as it is, or a window of a larger array whose other elements are no
+		// indices of this list
+		var li *lentArr[int]
+		if pre, post, lent := lendShape(r); lent && idx != nil && blame == "Filtering" {
+			li = lendArr(idx, pre, post, func(j int) int { return size + 1000 + j })
+			idx = li.arg()
+			how += fmt.Sprintf("array[%d:%d] of %d elements=", li.lo, li.hi, len(li.arr))
+			c.Count("filtering_lent_window", 1)
+		}
 		s.logf("L%d := L%d.Filtering(%s%v)", s.nextID, t.id, how, clipInts(idx))
 		var res list.AnyList
 		if p := vlib.Catch(func() { res = t.l.Filtering(idx) }); p != nil {
 			s.fail("Filtering", "panic", fmt.Sprintf("Filtering with valid indices panicked: %v", p))
 			s.dead = true
 			return
+		}
+		if li != nil {
+			if msg := li.changed(eqInt, showInt); msg != "" {
+				s.fail("Filtering", "writes-callers-slice", "Filtering wrote to the caller's index array: "+msg)
+			}
 		}
 		fl, ok := k.as(res)
 		if !ok {
@@ -936,6 +974,8 @@ func (s *seqRun[T, L]) step(bigBulk bool) {
 		s.links[pairOf(t.id, p.id)] = "Filtering"
 		if blame == "Sorting" {
 			s.holdInts(blame, fmt.Sprintf("the index slice returned by L%d.Sorting (and passed to Filtering)", t.id), idx)
+		} else if li != nil {
+			s.holdInts(blame, fmt.Sprintf("the array a window of which was passed to L%d.Filtering as index list", t.id), li.arr)
 		} else {
 			s.holdInts(blame, fmt.Sprintf("the index slice passed to L%d.Filtering", t.id), idx)
 		}
@@ -956,7 +996,11 @@ func (s *seqRun[T, L]) step(bigBulk bool) {
 		s.logf("L%d := %s (takes the place of L%d)", s.pool[j].id, ctor, old.id)
 		c.Count("pool_lists", 1)
 	default:
-		s.probeOOR()
+		if r.Bool() {
+			s.probeErr()
+		} else {
+			s.probeOOR()
+		}
 	}
 	if !s.dead && s.mutated {
 		if !s.verifyAll(s.last, "") {
